@@ -34,6 +34,8 @@ pub struct InstanceState {
     last_received_time_stamp: Time,
     // Writers that have written the instance and have not unregistered it
     registered_writers: Vec<[u8; 16]>,
+    // Source timestamp of the last sample that passed the time based filter
+    last_accepted_source_timestamp: Option<Time>,
 }
 
 impl InstanceState {
@@ -46,6 +48,7 @@ impl InstanceState {
             most_recent_no_writers_generation_count: 0,
             last_received_time_stamp: Time::new(TIME_INVALID_SEC, TIME_INVALID_NSEC),
             registered_writers: Vec::new(),
+            last_accepted_source_timestamp: None,
         }
     }
 
@@ -464,25 +467,25 @@ impl<T> DataReaderEntity<T> {
             }
         }
 
+        // The time based filter is relative to the last sample of the instance that passed it,
+        // whether or not that sample is still in the history (it may have been taken or replaced)
         let is_sample_of_interest_based_on_time = {
-            let closest_timestamp_before_received_sample = self
-                .sample_list
+            let last_accepted_source_timestamp = self
+                .instances
                 .iter()
-                .filter(|cc| cc.instance_handle == sample.instance_handle)
-                .filter(|cc| cc.source_timestamp <= sample.source_timestamp)
-                .map(|cc| cc.source_timestamp)
-                .max();
-
-            if let Some(Some(t)) = closest_timestamp_before_received_sample {
-                if let Some(sample_source_time) = sample.source_timestamp {
-                    let sample_separation = sample_source_time - t;
+                .find(|x| x.handle() == &sample.instance_handle)
+                .and_then(|x| x.last_accepted_source_timestamp);
+            match (last_accepted_source_timestamp, sample.source_timestamp) {
+                (Some(t), Some(sample_source_time)) => {
+                    let sample_separation = if sample_source_time >= t {
+                        sample_source_time - t
+                    } else {
+                        t - sample_source_time
+                    };
                     DurationKind::Finite(sample_separation)
                         >= self.qos.time_based_filter.minimum_separation
-                } else {
-                    true
                 }
-            } else {
-                true
+                _ => true,
             }
         };
 
@@ -607,6 +610,16 @@ impl<T> DataReaderEntity<T> {
 
         let sample_writer_guid = sample.writer_guid;
         tracing::debug!(cache_change = ?sample, "Adding change to data reader history cache");
+
+        if let Some(instance) = self
+            .instances
+            .iter_mut()
+            .find(|x| x.handle() == &sample.instance_handle)
+        {
+            if sample.source_timestamp.is_some() {
+                instance.last_accepted_source_timestamp = sample.source_timestamp;
+            }
+        }
 
         match self.qos.destination_order.kind {
             DestinationOrderQosPolicyKind::BySourceTimestamp => {
